@@ -91,7 +91,10 @@ def run_case(case, mir, schema, native=None, quick=True):
                     row.append(b.value(ty, t))
             call_args.append(row)
         for nme in case.extra_syms:
-            h.real(nme)
+            if nme in getattr(case, "int_syms", ()):
+                h.int(nme)
+            else:
+                h.real(nme)
         S = dict(h.syms)
         assumptions = case.assume(S) if case.assume else []
         for (text, c) in assumptions:
